@@ -54,7 +54,7 @@ def const_lens(rng, s, form):
         lens = [short() for _ in range(rng.randint(1, 4))]
         lens.insert(rng.randrange(len(lens) + 1), s)
     elif form == "emptyrun":
-        lens = [rng.randint(1, 3) for _ in range(rng.randint(0, 2))] + [0] * s + [rng.randint(1, 3) for _ in range(rng.randint(1, 2))]
+        lens = [rng.randint(1, 3) for _ in range(rng.choice([0, 0, 1, 2]))] + [0] * s + [rng.randint(1, 3) for _ in range(rng.randint(1, 2))]
     else:       # "nonempty": exactly s non-empty rows with a few empty ones in between
         lens = []
         for _ in range(s):
